@@ -10,7 +10,7 @@ def run_mutant(name):
     res = {"name": name, "ok": True, "detail": []}
     try:
         repo = os.path.join(d, 'repo'); out = os.path.join(d, 'out')
-        subprocess.run(['rsync','-a','--exclude','.git','/repo/',repo+'/'],check=True)
+        subprocess.run(['rsync','-a','--exclude','.git',os.environ.get('ST_REPO','/repo').rstrip('/')+'/',repo+'/'],check=True)
         p = subprocess.run(['patch','-p1','-s','-d',repo,'-i',f'{V}/selftest/mutants/{name}.patch'],capture_output=True,text=True)
         if p.returncode != 0:
             res["ok"] = False; res["detail"].append("PATCH FAILED: "+p.stdout+p.stderr); return res
